@@ -122,6 +122,7 @@ fn run_job(job: Job, miri: bool) -> (Job, Outcome, usize) {
             delay_seed: 0,
             delay_scale_us: 0,
             delay_target: 0,
+            ask_again: 0,
         });
         return (placeholder, if dead { Outcome::Deadlock(msg) } else { Outcome::Stalled(msg) }, 0);
     }
@@ -234,6 +235,7 @@ fn handle(
                         if seen.end_seen {
                             rep.count("runs_drained_to_end_marker");
                         }
+                        rep.add("calls_of_next_after_the_end_marker", seen.asked_after_end as u64);
                         if !seen.errs.is_empty() {
                             rep.count("runs_with_error_received");
                         }
@@ -578,6 +580,7 @@ fn memory_mode(ctx: &Ctx, rep: &mut Report) {
                 delay_seed: rng.next(),
                 delay_scale_us: 2,
                 delay_target: 0,
+                ask_again: 0,
             })
         };
         rep.evaluations += 1;
